@@ -80,6 +80,30 @@ class BDD:
     def XOR(self, a, b):
         return self.ite(a, self.NOT(b), b)
 
+    def restrict(self, f, v, val, _memo=None):
+        """f with variable index v fixed to val."""
+        _memo = {} if _memo is None else _memo
+        if f <= 1:
+            return f
+        if f in _memo:
+            return _memo[f]
+        fv, lo, hi = self.nodes[f]
+        if fv == v:
+            r = hi if val else lo
+        elif fv > v:
+            r = f
+        else:
+            r = self._mk(fv, self.restrict(lo, v, val, _memo), self.restrict(hi, v, val, _memo))
+        _memo[f] = r
+        return r
+
+    def forall(self, f, names):
+        for nm in names:
+            if nm in self.var_index:
+                v = self.var_index[nm]
+                f = self.AND(self.restrict(f, v, 0), self.restrict(f, v, 1))
+        return f
+
     def any_sat(self, f):
         """One satisfying assignment {atom: bool} of f (None if unsatisfiable)."""
         if f == 0:
@@ -231,6 +255,19 @@ class Skeleton:
             return out
         if isinstance(e, ast.UnaryOp) and isinstance(e.op, ast.Not):
             return b.NOT(self._formula(e.operand))
+        # bool(<condition>) is that condition; xor / (in)equality of two truth values is a formula, not an atom
+        if isinstance(e, ast.Call) and isinstance(e.func, ast.Name) and e.func.id == "bool" and len(e.args) == 1 and not e.keywords \
+                and isinstance(e.args[0], (ast.BoolOp, ast.Compare, ast.UnaryOp, ast.IfExp)):
+            return self._formula(e.args[0])
+
+        def truthy(x):
+            return isinstance(x, ast.Call) and isinstance(x.func, ast.Name) and x.func.id == "bool" and len(x.args) == 1
+        if isinstance(e, ast.BinOp) and isinstance(e.op, ast.BitXor) and truthy(e.left) and truthy(e.right):
+            return b.XOR(self._formula(e.left), self._formula(e.right))
+        if isinstance(e, ast.Compare) and len(e.ops) == 1 and isinstance(e.ops[0], (ast.Eq, ast.NotEq)) and truthy(e.left) \
+                and truthy(e.comparators[0]):
+            x = b.XOR(self._formula(e.left), self._formula(e.comparators[0]))
+            return x if isinstance(e.ops[0], ast.NotEq) else b.NOT(x)
         if isinstance(e, ast.IfExp):
             c = getattr(e, "_cond", None)
             if c is None:
@@ -447,6 +484,34 @@ def compare(code_func, spec_func, axioms=(), bases=None):
     }
     if diff == 0:
         return True, info
+    # atoms that occur only in the code (calls of new helpers, table look-ups, ...) are uninterpreted: the two functions
+    # certainly differ only if they differ for EVERY value of those atoms
+    PURE_FUNCS = {"isinstance", "len", "str", "int", "bool", "type"}
+    PURE_METHODS = {"lower", "upper", "rstrip", "lstrip", "strip", "startswith", "endswith", "get"}
+
+    def uninterpreted(text):
+        nd = nodes.get(text)
+        if nd is None:
+            return False
+        for c in ast.walk(nd):
+            if isinstance(c, ast.Call):
+                if isinstance(c.func, ast.Name) and c.func.id not in PURE_FUNCS:
+                    return True
+                if isinstance(c.func, ast.Attribute) and c.func.attr not in PURE_METHODS and not c.func.attr.startswith(("_is_", "_check_")):
+                    return True
+                if not isinstance(c.func, (ast.Name, ast.Attribute)):
+                    return True
+            if isinstance(c, (ast.Lambda, ast.GeneratorExp, ast.ListComp, ast.Dict)):
+                return True
+        return False
+    opaque = [t for t in info["only_in_code"] if uninterpreted(t)]
+    info["opaque_atoms"] = opaque
+    if opaque:
+        certain = bdd.forall(diff, opaque)
+        if certain == 0:
+            info["undetermined"] = True
+        else:
+            diff = certain
     w = bdd.any_sat(diff)
     full = dict(w)
     info["witness"] = {k: v for k, v in w.items()}
